@@ -71,7 +71,7 @@ def _run_query(
             query = query.join(ArchiveFile).where(ArchiveFile.acq << acqs)
 
         # Limit by file-list, if given
-        if listed_files:
+        if listed_files is not None:
             query = query.where(ArchiveFileCopy.file << listed_files)
 
         # Perform the query
